@@ -840,6 +840,21 @@ def rule_dm_queries(crate, prop, tier):
                               (r[0] == "un" and r[1] == "Not" and r[2][0] == "call" and r[2][1] == "core::cmp::PartialEq::eq") or \
                               (r[0] == "bin" and r[1] == "Ne")
                         ok = neq and _mentions_infinity(cl, r)
+        if nm == "is_connected" and not ok:
+            # whatever the spelling: `true` must not be returned on a path that never looked at the matrix
+            scans = {ev["b"] for ev in an.events if ev["k"] == "call" and (prog.key_to_path.get(ev["key"]) == e or ev["key"] in (
+                "slice::chunks", "slice::chunks_exact", "slice::iter", "core::ops::index::Index::index"))}
+            for rev in [ev for ev in an.events if ev["k"] == "return"]:
+                cands = []
+                v = rev["val"]
+                if v[0] == "phi" and len(v) == 3:
+                    cands = list(zip([pb for pb, _ in an.cfg.pred[v[1]]], an.phi_inputs(v[1], v[2])))
+                else:
+                    cands = [(rev["b"], v)]
+                for pb, t in cands:
+                    if const_is(t, 1) and not any(an.cfg.dominates(sb, pb) for sb in scans):
+                        o.check(False, who, "connected-without-scan", "is_connected returns true on a path that never looks at the matrix "
+                                "(a matrix whose entries are all infinite, e.g. a single unreachable cell, is not connected)", rev.get("span"))
         if not ok:
             o.undecide(who, nm + "-definition", "%s is not written over eccentricities() / the rows of dist.chunks(order) in a form the rule interprets" % nm)
         else:
